@@ -50,6 +50,7 @@ type Ctx struct {
 	Rule       string
 	Assume     []string
 	Extra      map[string]any // extra coverage keys
+	ShadowAll  bool           // shadow every case (else only cases that name a twin)
 	Shadow     bool           // also run every verification case twice through a re-used Options value (history independence)
 	SharedPool chan any       // pool of re-used Options values (one per worker), managed by props
 
